@@ -95,6 +95,9 @@ Definition payback (c : cfg) (z : Z) : outcome (Z * Z * Z * Z) :=
 (* ---- deposit ------------------------------------------------------------ *)
 (* `sent` = attached funds of the vault denom (native) / the allowance given to the vault (cw20) *)
 Definition deposit (u : nat) (z sent : Z) (st : state) : outcome state :=
+  (* native asset: the attached funds are moved by the bank before the contract runs, so a sender who cannot cover them is
+     rejected before any check of the vault (cw20: the TransferFrom comes last) *)
+  do _ <- ensure (kind st || (sent <=? get (ab st) u)) E_OTHER;
   do _ <- ensure (dep_on (conf st)) E_DISABLED;
   do _ <- ensure (counter st =? 0) E_OTHER;                  (* DepositDuringLoan *)
   do _ <- ensure (sent =? z) E_OTHER;                        (* FundsMismatch *)
